@@ -109,6 +109,16 @@ CLAIMS = {
             "an independent exact definition. All vectors of <=4 entries over 0..4 are enumerated completely.",
             "The oracle never calls prtpy; the weighted objective is compared within 1e-12 relative tolerance.",
             "DESIGN.md 6/C20"),
+    "C11": ("fault_enumeration", "property-based testing with exhaustive enumeration of interruption points under a deterministic counting clock; oracles: partition validity, monotone objective, reference LPT, exhaustive optimum",
+            "complete greedy (3 objectives x 16 switch combinations) and cbldm (default / 1 / 2 / 3 cardinality bound) are called directly with a "
+            "contents manager while a counting clock replaces the module's clock: one unlimited run gives the number T of clock readings, then "
+            "the call is repeated for every cut-off t = 0|1..T+1 (every point at which the limit test can fire; beyond 400 cut-offs the "
+            "first 200, last 100 and 100 sampled). Each interrupted result must be the no-solution value or a complete valid partition "
+            "(obeying the cardinality bound), the objective value must be non-increasing in t, complete greedy's first solution must be the "
+            "greedy one, the largest limit must equal no limit, and no limit must be optimal. The CKK generator's yields must be valid, "
+            "strictly improving and end at the optimum.",
+            "No source hook: the modules read time.perf_counter through the module attribute `time`, which the check replaces (and patches time.perf_counter itself for the duration of the call).",
+            "DESIGN.md 6/C11"),
     "C12": ("exploration", "property-based testing against a DP optimum under the cardinality bound + bounded-exhaustive enumeration",
             "cbldm is run on generated inputs of up to 12 items (zeros, repeats, all-ones, few-big-many-small) with the "
             "default bound and bounds 1,2,3,random; the result must be a true 2-partition, obey the bound and attain the "
